@@ -65,6 +65,7 @@ let print_world (w : world) =
    | None -> Printf.printf "IDX absent\n"
    | Some es ->
        Printf.printf "IDX present\n";
+       Printf.printf "IDXRAW %s\n" (hx (encode_index es));
        Stdlib.List.iter (fun e -> Printf.printf "IE %s %s\n" (hx e.e_id) (hx e.e_path)) es);
   Stdlib.List.iter (fun (id, p) ->
     let k = string_of_bytes id and v = string_of_bytes p in
